@@ -166,7 +166,15 @@ def menu(f, with_queries=False, full=True):
         if dn:
             add('removesingleton_f', not conv, dim=dn[0])
             add('slice_dim_f', dims[dn[0]] >= 1, dim=dn[0])
-            add('reduce_dim_f', dims[dn[-1]] >= 1 and _numeric_along(vars_, dn[-1]), dim=dn[-1])
+            # (reducing the vertex dimension of a CF bounds variable is outside the domain: cell bounds
+            # without their vertices mean nothing)
+            def vertex(d):
+                # ... likewise bounds variables that are not (coordinate dimension, vertices) pairs any more
+                return any(('_bounds' in k or '_bnds' in k) and vd and d in vd and (vd[-1] == d or len(vd) != 2 or dims[vd[-1]] < 2)
+                           for k, (vd, dt) in vars_.items())
+            add('reduce_dim_f', dims[dn[-1]] >= 1 and _numeric_along(vars_, dn[-1]) and not vertex(dn[-1]), dim=dn[-1])
+            if dn[0] != dn[-1]:
+                add('reduce_dim_f', dims[dn[0]] >= 1 and _numeric_along(vars_, dn[0]) and not vertex(dn[0]), dim=dn[0])
     return ops
 
 
